@@ -20,6 +20,7 @@ func init() { gens["C10"] = genC10 }
 //	1 common   (1 cls (vals...) scalerOpt (strs...) scaleStrOpt sameAsMin)  CommonScale + Format of every value
 //	2 format   (2 prec factor prefix v ((qbits shortest)...) out)          Scaler.Format with an arbitrary Scaler (incl. NoOpScaler)
 //	3 classof  (3 unit cls)
+//	5 history  (5 (step ...))   calls made one after the other in one process, see c10hist.go
 //	4 rows     (4 ((unit text ((sameAsMin (centre?...)) ...)) ...))        real benchtab tables: ToText's text and the centres of every row (c16gaps.go)
 type c10Input struct {
 	Kind   string   `json:"kind"`
@@ -447,7 +448,7 @@ func c10AnyValue(r *hx.Rng, centres []float64) float64 {
 }
 
 func genC10(o *hx.Out, r *hx.Rng, tier string, replay string) error {
-	o.Rule = "CommonScale/Scale/Scaler.Format/ClassOf of golang.org/x/perf/benchunit through the public API: (0) the change points of v -> CommonScale([v]) per class found by bisection over bit patterns, (1) every float within +-64 (quick) / +-4096 (thorough) ulps of every observed change point and of every threshold of the documented recipe, random magnitudes 1e-30..1e30, tie-prone mantissas (x.x5, x.xx5, x.xxx5 exactly representable, times each prefix), multisets of 1-6 values incl. zeros, NaN, Inf, negative, bad Class; (2) Format with arbitrary Scalers incl. NoOpScaler with strconv's shortest output recorded as oracle; (3) ClassOf on unit strings assembled from tokens and ASCII/Unicode separators and invalid UTF-8; (4) the shared scale as cmd/benchstat's table renderer applies it (benchtab.Table.RowScaler / ToText on real tables built in process from generated files): rows whose least non-zero |centre| is negative, all-negative rows, rows mixing zero, negative and positive centres, decimal and binary units, 1-5 rows x 2-4 columns with missing cells - the centres printed in the text are read back and judged like (1). non-trivial = a non-zero finite magnitude / non-empty unit; distinct by input"
+	o.Rule = "CommonScale/Scale/Scaler.Format/ClassOf of golang.org/x/perf/benchunit through the public API: (0) the change points of v -> CommonScale([v]) per class found by bisection over bit patterns, (1) every float within +-64 (quick) / +-4096 (thorough) ulps of every observed change point and of every threshold of the documented recipe, random magnitudes 1e-30..1e30, tie-prone mantissas (x.x5, x.xx5, x.xxx5 exactly representable, times each prefix), multisets of 1-6 values incl. zeros, NaN, Inf, negative, bad Class; (2) Format with arbitrary Scalers incl. NoOpScaler with strconv's shortest output recorded as oracle; (3) ClassOf on unit strings assembled from tokens and ASCII/Unicode separators and invalid UTF-8; (4) the shared scale as cmd/benchstat's table renderer applies it (benchtab.Table.RowScaler / ToText on real tables built in process from generated files): rows whose least non-zero |centre| is negative, all-negative rows, rows mixing zero, negative and positive centres, decimal and binary units, 1-5 rows x 2-4 columns with missing cells - the centres printed in the text are read back and judged like (1); (5) HISTORIES of calls (c10hist.go), each run once in a process of its own that has not used the package before (cmd/c10proc) and once in the generator's process: Tidy(unit) and ClassOf(unit) on the same string in both orders for units with B / bytes / MB in the numerator whose text contains ns or MB elsewhere (B/ns, bytes/conns, B/txns, MB/s ...), controls with the bytes in the denominator, two units interleaved; process order - a Binary value below 1 (0.5, 0.0123, 0.00012344, the shared scale {3, 0.25, 0}, random magnitudes down to 1e-8) as the very first call or behind calls that must not matter, then a Decimal value, then again; a Decimal value below 1n before any Binary one; random mixed histories - every step judged by its own clause, inputs of the known findings avoided. non-trivial = a non-zero finite magnitude / non-empty unit; distinct by input"
 	thorough := tier == "thorough"
 
 	// (0) tables, read back through behaviour
@@ -788,6 +789,11 @@ func genC10(o *hx.Out, r *hx.Rng, tier string, replay string) error {
 		if _, err := c16RunRowScale(o, dir, in, fl0, 4, "quotient-rounding-witness"); err != nil {
 			return err
 		}
+	}
+	// (5) histories of calls in a fresh process and in this one (c10hist.go); a
+	// stream of their own
+	if err := c10GenHist(o, hx.NewRng(r.Seed()^0x2545f4914f6cdd1d), tier); err != nil {
+		return err
 	}
 	return nil
 }
